@@ -136,7 +136,8 @@ def impl(case):
 def decode(sx, case):
     if sx[0] == "unsupported":
         return {"model": {}, "spec": {}, "in_domain": False, "skip": True}
-    _, fi, fa, spec, wf, afi, afa, std, ext, nps = sx[:10]
+    _, fi, fa, spec, wf, afi, afa, std, ext = sx[:9]
+    nps = [x for x in sx[9:] if x[0] == "normpaths"][0]
     model = {"text": render(case)}
     if fi[0] == "ok":
         model["matches"] = [{"path": m[1], "parts": m[0]} for m in decode_matches(fi[1])]
